@@ -355,6 +355,12 @@ def _inspect(obj, name, word_wrap):
 
     other = parser(parsed_body)
     ir_merge(ir, other)
+    # The docstring came first in the merge: restore the parameter order of the source
+    ir["params"] = OrderedDict(
+        (name, ir["params"][name])
+        for name in list(other["params"])
+        + [name for name in ir["params"] if name not in other["params"]]
+    )
     if "return_type" in (ir.get("returns") or iter(())):
         ir["returns"] = OrderedDict(
             map(
